@@ -154,6 +154,15 @@ def gen_hostile(ctx):
                 items = [{"p": b"other".hex(), "n": 3, "dir": False, "id": b"1122".hex()}] + ([good, bad] if later else [bad, good])
                 cases.append({"mode": "hostile", "name": f"aimed-dup-id-{'later' if later else 'earlier'}-{'noroot' if noroot else 'root'}", "root": b"tree".hex(), "items": items,
                               "begins": [{"p": b"dup.bin".hex(), "n": 70, "chunk": 64}], "noroot": noroot, "resume": True, "_kind": "dup-path-hostile-id"})
+    # aimed: a FileBegin whose wire path contains parent references and would be a manifest entry once cleaned (same size): the path on
+    # the wire is what the receiver opens
+    for noroot in (True, False):
+        for bp in (b"../notes.txt", b"../../notes.txt", b"sub/../../notes.txt", b"./../notes.txt", b"sub/../../../notes.txt", b"/notes.txt", b"//notes.txt", b"sub/../notes.txt"):
+            for resume in (True, False):
+                cases.append({"mode": "hostile", "name": f"aimed-begin-{bp.hex()[:16]}-{'noroot' if noroot else 'root'}-{'r' if resume else 'n'}", "root": b"tree".hex(),
+                              "items": [{"p": b"sub".hex(), "n": 0, "dir": True, "id": b"".hex()}, {"p": b"notes.txt".hex(), "n": 10, "dir": False, "id": b"00aa".hex()},
+                                        {"p": b"sub/notes.txt".hex(), "n": 10, "dir": False, "id": b"00ab".hex()}],
+                              "begins": [{"p": bp.hex(), "n": 10, "chunk": 64}], "noroot": noroot, "resume": resume, "_kind": "begin-path-cleans-to-entry"})
     # aimed: every hostile root in both root modes with resume on (rooted mode puts the tree under the root name; flat mode still
     # derives the fallback metadata location from it)
     for hr in HOSTILE_ROOT:
